@@ -301,3 +301,24 @@ Proof.
     rewrite (lookup_char_In _ _ _ Hnd Hin). apply first_tag_sound. exact Ha.
   - simpl in Hl. destruct Hl as [-> Ha]. apply first_tag_sound. exact Ha.
 Qed.
+
+(* ---- (5) previous_config is restored by every call, accepted or rejected ----------------------------------------- *)
+From JV Require Import Model.C05History.
+
+Lemma parse_items_restores : forall items s cfg, snd (parse_items with_previous_config s cfg items) = s.
+Proof.
+  induction items as [|i items IH]; intros s cfg; simpl; [reflexivity|].
+  destruct i as [| |ok]; simpl; [apply IH|reflexivity|].
+  destruct ok; simpl; [apply IH|reflexivity].
+Qed.
+
+Theorem history_independent : forall (calls : list (list pitem)) (s : pstate), state_after s calls = s.
+Proof.
+  induction calls as [|c calls IH]; intros s; simpl; [reflexivity|].
+  unfold parse_call. rewrite parse_items_restores. apply IH.
+Qed.
+
+(* the finally is what makes this true: without it a rejected --cfg after one accepted option leaks *)
+Lemma nofinally_leaks :
+  snd (parse_items with_previous_config_nofinally None 0 [POpt; PCfg false]) = Some 1.
+Proof. reflexivity. Qed.
